@@ -45,7 +45,7 @@ static zckDL *mk_mpdl(IN_mp *in) {
     dl->zck = NULL;
     if(!in->zck_null) { dl->zck = malloc(sizeof(zckCtx)); V_ASSUME(dl->zck != NULL); *dl->zck = in->anyz; dl->zck->error_state = in->err0; }
     dl->hdr_regex = mk_rx(in, 0); dl->dl_regex = mk_rx(in, 1); dl->end_regex = mk_rx(in, 2);
-    V_ASSUME(dl->dl_regex == NULL || dl->end_regex != NULL);
+    V_ASSUME((dl->dl_regex == NULL) == (dl->end_regex == NULL));
     dl->mp = NULL;
     if(!in->mp_null) {
         dl->mp = malloc(sizeof(zckMP)); V_ASSUME(dl->mp != NULL); *dl->mp = in->anymp;
@@ -70,7 +70,7 @@ void h_gen_regex(void) {
     if(dl != NULL) {
         V_ASSERT(dl->dl_regex == NULL || RX_COMPILED(dl->dl_regex), "C17.gen_regex.no_uncompiled_pattern_left_behind_on_any_return");
         V_ASSERT(dl->end_regex == NULL || RX_COMPILED(dl->end_regex), "C17.gen_regex.no_uncompiled_pattern_left_behind_on_any_return");
-        V_ASSERT(dl->dl_regex == NULL || dl->end_regex != NULL, "C17.gen_regex.no_uncompiled_pattern_left_behind_on_any_return");
+        V_ASSERT((dl->dl_regex == NULL) == (dl->end_regex == NULL), "C17.gen_regex.no_uncompiled_pattern_left_behind_on_any_return");
     }
     V_COVER(r); V_COVER(!r && dl != NULL && !in.zck_null && in.err0 == 0 && in.has_boundary);
 }
@@ -138,7 +138,7 @@ static void mk_dlstate(IN_mp *in, zckDL *dl) {
 #endif
 void h_multipart_extract(void) {
     IN_mp in = nondet_IN_mp();
-    V_ASSUME(!in.zck_null);
+    V_ASSUME(!in.zck_null && !in.mp_null);
     zckDL *dl = mk_mpdl(&in);
     mk_dlstate(&in, dl);
     V_ASSUME(in.size <= MPX_FRAG);
